@@ -59,7 +59,7 @@ static void parse_spec(const char *spec)
 
 /* ---- header variants ---------------------------------------------------- */
 typedef struct { const char *json; int intended; } hvar_t;
-#define NHDR 35
+#define NHDR 45
 static hvar_t HV[NHDR];
 static char hv_store[15][16];
 static void init_hdr(void)
@@ -88,6 +88,17 @@ static void init_hdr(void)
 	HV[32] = (hvar_t){ "true", JWT_ALG_NONE };
 	HV[33] = (hvar_t){ "\"none \"", JWT_ALG_NONE };
 	HV[34] = (hvar_t){ "\"PS256\\u0000\"", JWT_ALG_PS256 };
+	/* spellings a lenient number / string parser would take for a real name */
+	HV[35] = (hvar_t){ "\"RS 256\"", JWT_ALG_RS256 };
+	HV[36] = (hvar_t){ "\"RS+256\"", JWT_ALG_RS256 };
+	HV[37] = (hvar_t){ "\"RS0256\"", JWT_ALG_RS256 };
+	HV[38] = (hvar_t){ "\"HS 0256\"", JWT_ALG_HS256 };
+	HV[39] = (hvar_t){ "\"ES\\t256\"", JWT_ALG_ES256 };
+	HV[40] = (hvar_t){ "\" HS256\"", JWT_ALG_HS256 };
+	HV[41] = (hvar_t){ "\"HS256\\n\"", JWT_ALG_HS256 };
+	HV[42] = (hvar_t){ "\"PS+0384\"", JWT_ALG_PS384 };
+	HV[43] = (hvar_t){ "\"EdDSA \"", JWT_ALG_EDDSA };
+	HV[44] = (hvar_t){ "\"HS256.0\"", JWT_ALG_HS256 };
 }
 
 /* ---- keys ------------------------------------------------------------------ */
